@@ -298,4 +298,121 @@ theorem batchBounds_sizes (n b : Nat) (hb : 0 < b) (fuel i : Nat) :
       · exact ih _ p hp
     · simp [hi]
 
+/-! ### column ↔ field resolution -/
+
+section Lookup
+variable {α : Type} [DecidableEq α]
+
+theorem assoc_cons {β : Type} (k k' : α) (v : β) (l : List (α × β)) :
+    assoc k ((k', v) :: l) = if k = k' then some v else assoc k l := rfl
+
+theorem regStepName_byDB (st : Reg α) (e : Ent α) : (regStepName st e).byDB = st.byDB := by
+  unfold regStepName
+  cases assoc e.2.name st.byName with
+  | none => rfl
+  | some o => by_cases h : o.2.ignored = true <;> simp [h]
+
+/-- the column map after one step: unchanged, or the field's own column bound to the field -/
+theorem regStep_byDB (st : Reg α) (e : Ent α) :
+    (regStep st e).byDB = st.byDB ∨ ∃ c, e.2.dbName = some c ∧ (regStep st e).byDB = (c, e) :: st.byDB := by
+  unfold regStep
+  rw [regStepName_byDB]
+  unfold regStepDB
+  cases hd : e.2.dbName with
+  | none => exact Or.inl rfl
+  | some c =>
+    simp only
+    cases assoc c st.byDB with
+    | none => exact Or.inr ⟨c, rfl, rfl⟩
+    | some v =>
+      simp only
+      by_cases h : (e.2.perm && decide (e.2.depth < v.2.depth)) = true
+      · rw [if_pos h]; exact Or.inr ⟨c, rfl, rfl⟩
+      · rw [if_neg h]; exact Or.inl rfl
+
+/-- a field's column is registered after its step -/
+theorem regStep_has (st : Reg α) (e : Ent α) (c : α) (h : e.2.dbName = some c) :
+    (assoc c (regStep st e).byDB).isSome = true := by
+  unfold regStep
+  rw [regStepName_byDB]
+  unfold regStepDB
+  rw [h]
+  simp only
+  cases ha : assoc c st.byDB with
+  | none => simp [assoc_cons]
+  | some v =>
+    simp only
+    by_cases hc : (e.2.perm && decide (e.2.depth < v.2.depth)) = true
+    · rw [if_pos hc]; simp [assoc_cons]
+    · rw [if_neg hc]; simp [ha]
+
+/-- every binding of the column map is (index, field) of `fs`, below `k`, and the field HAS that column -/
+def InvA (fs : List (PField α)) (k : Nat) (st : Reg α) : Prop :=
+  ∀ c e, assoc c st.byDB = some e → e.1 < k ∧ fs[e.1]? = some e.2 ∧ e.2.dbName = some c
+/-- every column of the fields below `k` is bound -/
+def InvB (fs : List (PField α)) (k : Nat) (st : Reg α) : Prop :=
+  ∀ j f c, j < k → fs[j]? = some f → f.dbName = some c → (assoc c st.byDB).isSome = true
+
+theorem regStep_inv (fs : List (PField α)) (k : Nat) (f : PField α) (st : Reg α) (hk : fs[k]? = some f)
+    (hA : InvA fs k st) (hB : InvB fs k st) :
+    InvA fs (k + 1) (regStep st (k, f)) ∧ InvB fs (k + 1) (regStep st (k, f)) := by
+  constructor
+  · intro c e he
+    rcases regStep_byDB st (k, f) with h | ⟨c', hc', h⟩
+    · rw [h] at he
+      obtain ⟨h1, h2, h3⟩ := hA c e he
+      exact ⟨by omega, h2, h3⟩
+    · rw [h, assoc_cons] at he
+      by_cases hcc : c = c'
+      · rw [if_pos hcc] at he
+        cases he
+        exact ⟨by simp, hk, by rw [hcc]; exact hc'⟩
+      · rw [if_neg hcc] at he
+        obtain ⟨h1, h2, h3⟩ := hA c e he
+        exact ⟨by omega, h2, h3⟩
+  · intro j g c hj hg hc
+    by_cases hjk : j = k
+    · subst hjk
+      rw [hk] at hg
+      cases hg
+      exact regStep_has st (j, f) c hc
+    · have := hB j g c (by omega) hg hc
+      rcases regStep_byDB st (k, f) with h | ⟨c', _, h⟩
+      · rw [h]; exact this
+      · rw [h, assoc_cons]
+        by_cases hcc : c = c'
+        · simp [hcc]
+        · simp [hcc, this]
+
+theorem regFrom_inv (fs : List (PField α)) :
+    ∀ (rest : List (PField α)) (k : Nat) (st : Reg α), (∀ j, rest[j]? = fs[k + j]?) → InvA fs k st → InvB fs k st →
+      InvA fs (k + rest.length) (regFrom k rest st) ∧ InvB fs (k + rest.length) (regFrom k rest st) := by
+  intro rest
+  induction rest with
+  | nil => intro k st _ hA hB; exact ⟨hA, hB⟩
+  | cons f rest ih =>
+    intro k st hr hA hB
+    have hk : fs[k]? = some f := by have := hr 0; simpa using this.symm
+    obtain ⟨hA', hB'⟩ := regStep_inv fs k f st hk hA hB
+    have := ih (k + 1) (regStep st (k, f)) (fun j => by have := hr (j + 1); simpa [Nat.add_assoc, Nat.add_comm 1 j] using this) hA' hB'
+    simpa [regFrom, Nat.add_assoc, Nat.add_comm 1 rest.length] using this
+
+theorem parseReg_inv (fs : List (PField α)) : InvA fs fs.length (parseReg fs) ∧ InvB fs fs.length (parseReg fs) := by
+  have := regFrom_inv fs fs 0 {} (fun j => by simp) (fun c e h => by simp [assoc] at h) (fun j f c h => by omega)
+  simpa [parseReg] using this
+
+end Lookup
+
+/-! ### pooled holders -/
+
+theorem scanLoop_renew {σ δ : Type} (merge : σ → δ → σ) (proto : σ) (ds : List δ) :
+    ∀ h, scanLoop merge proto true h ds = match ds with | [] => [] | d :: t => merge h d :: t.map (merge proto) := by
+  induction ds with
+  | nil => intro h; rfl
+  | cons d t ih =>
+    intro h
+    simp only [scanLoop, if_true]
+    rw [ih proto]
+    cases t <;> rfl
+
 end Gorm.Scan
